@@ -173,6 +173,8 @@ conv_try!(conv__f82_f162, F82, F162);
 conv_try!(conv__f162_f82, F162, F82);
 conv_try!(conv__f83_f82, F83, F82);
 conv_try!(conv__f642_f83, F642, F83);
+conv_try!(conv__f816_f1281, F816, F1281);
+conv_try!(conv__f1281_f816, F1281, F816);
 conv_try!(conv__bvd_f82, Bvd, F82);
 conv_try!(conv__bvd_f642, Bvd, F642);
 conv_try!(conv__bv_f162, Bv, F162);
